@@ -429,7 +429,7 @@ def random_cases(draw):
         "attriter": draw(st.sampled_from([None, "sorted", "keyfilter", "genfilter"])),
         "childiter": draw(st.sampled_from(["list", "reversed", "filter", "tail", "iter", "revgen", "memolist"])),
         "dictcls": draw(st.sampled_from(["dict", "OrderedDict", "MyDict"])),
-        "maxlevel": draw(st.one_of(st.none(), st.integers(0, 6))),
+        "maxlevel": draw(st.one_of(st.none(), st.integers(0, 6), st.integers(0, 6), st.sampled_from([0.5, 1.5, 2.5, 3.5, 2.0]))),
         "abort_at": draw(st.integers(0, 8)),
         "mutations": draw(strategies.tree_mutations(max_ops=2, rename_values=st.integers(0, 5))),
     }
@@ -445,7 +445,7 @@ def _enum_cases(max_nodes, index, count):
             k += 1
             if k % count != index:
                 continue
-            for maxlevel in [None] + list(range(0, height + 3)):
+            for maxlevel in [None] + list(range(0, height + 3)) + sorted({1.5, max(height - 0.5, 0.5)}):
                 for attriter in (None, "sorted", "keyfilter"):
                     for childiter in ("list", "reversed", "filter", "tail", "iter", "revgen", "memolist"):
                         for dictcls in ("dict", "OrderedDict", "MyDict"):
